@@ -161,6 +161,21 @@ pub(super) fn translate_wildcards(ctx: &AnchorContext, cols: Vec<CId>) -> (Vec<C
 }
 
 fn deduplicate_select_items(items: &mut Vec<SelectItem>) {
+    // verification hook: the items before de-duplication, by shape
+    #[cfg(prqlc_verif)]
+    let verif_in: Vec<serde_json::Value> = items
+        .iter()
+        .map(|item| match item {
+            SelectItem::UnnamedExpr(sql_ast::Expr::CompoundIdentifier(idents)) => serde_json::json!({
+                "compound": idents.iter().map(|i| i.value.clone()).collect::<Vec<_>>()
+            }),
+            SelectItem::ExprWithAlias { alias, .. } => serde_json::json!({"alias": alias.value.clone()}),
+            _ => serde_json::json!("other"),
+        })
+        .collect();
+    #[cfg(prqlc_verif)]
+    let verif_len_before = items.len();
+
     // Dropping all duplicated identifiers
     let mut seen = HashSet::new();
     items.retain(|select_item| match select_item {
@@ -171,6 +186,25 @@ fn deduplicate_select_items(items: &mut Vec<SelectItem>) {
         SelectItem::ExprWithAlias { alias, .. } => seen.insert(alias.clone()),
         _ => true,
     });
+
+    // verification hook: what was kept
+    #[cfg(prqlc_verif)]
+    {
+        let kept: Vec<serde_json::Value> = items
+            .iter()
+            .map(|item| match item {
+                SelectItem::UnnamedExpr(sql_ast::Expr::CompoundIdentifier(idents)) => serde_json::json!({
+                    "compound": idents.iter().map(|i| i.value.clone()).collect::<Vec<_>>()
+                }),
+                SelectItem::ExprWithAlias { alias, .. } => serde_json::json!({"alias": alias.value.clone()}),
+                _ => serde_json::json!("other"),
+            })
+            .collect();
+        log::debug!(
+            "verif:deduplicate_select_items {}",
+            serde_json::json!({"items": verif_in, "kept": kept, "dropped": verif_len_before - items.len()})
+        );
+    }
 }
 
 pub(super) fn translate_select_items(
